@@ -173,7 +173,8 @@ def declare_c30(E):
     responder("_send_handle_response", [101, 102])
     responder("_open_folder", [101, 102])
     responder("_read_folder", [101, 104])
-    responder("_check_file", [101, 201], raises={"UnicodeDecodeError": "True", "struct.error": "True"})
+    # _check_file calls the user's handle (stat / read), so anything may escape it; nothing has been sent when it does
+    responder("_check_file", [101, 201], raises={"Exception": "True"})
     E.contract(S + "_process", params={"t": "u8", "request_number": "u32", "msg": "obj:Message"},
                requires={"msg_pos": "0 <= msg.packet.tell() and msg.packet.tell() <= len(msg.packet.getvalue())"},
                ensures={"exactly_one_response": "ghost('resp_count') == old(ghost('resp_count')) + 1",
@@ -184,12 +185,38 @@ def declare_c30(E):
                returns="none", modifies=None)
 
 
+def c30_check_file_contract(E):
+    """_check_file against its own body in the C30 environment (the user's handle may return anything or raise):
+    one response of type STATUS or EXTENDED_REPLY carrying the request id on normal return, none when it raises.
+    The response counter is havocked at both loop heads and carried by an invariant, so a response sent from an
+    iteration that goes round again is seen.  What the reply contains, and termination, are C32's."""
+    for h in ("_hashlib.openssl_sha1", "_hashlib.openssl_md5"):
+        E.contract(h, argnames=[], returns="opaque:Hash")
+    E.contract("Hash.update", argnames=["self", "data"], returns="none")
+    E.contract("Hash.digest", argnames=["self"], returns="bytes")
+    E.declare_class("paramiko.sftp_attr.SFTPAttributes", {"st_size": "int"})     # whatever size the handle reports
+    silent = "ghost('resp_count') == old(ghost('resp_count'))"
+    return dict(params={"request_number": "u32", "msg": "obj:Message"},
+                requires={"msg_pos": "0 <= msg.packet.tell() and msg.packet.tell() <= len(msg.packet.getvalue())"},
+                ensures={"exactly_one_response": "ghost('resp_count') == old(ghost('resp_count')) + 1",
+                         "status_or_extended_reply": "ghost('resp_type') == 101 or ghost('resp_type') == 201",
+                         "same_request_id": "ghost('resp_id') == request_number"},
+                loops={1: dict(inv=[silent], havoc_ghosts=["resp_count"],
+                               vars={"blocklen": "int", "chunklen": "int", "count": "int", "hash_obj": "opaque:Hash",
+                                     "data": "union[bytes,int]"}),
+                       2: dict(inv=[silent], havoc_ghosts=["resp_count"], vars={"data": "union[bytes,int]"})},
+                returns="none", raises={"Exception": silent}, modifies=["msg.packet.pos"], ghost=None)
+
+
 def declare_c30_helpers(E):
     """the responders themselves, against the packet actually handed to _send_packet"""
     E.declare_ghost(resp_payload="bytes")
     E.contract("paramiko.sftp.BaseSFTP._send_packet", params={"t": "int", "packet": "union[obj:Message,bytes]"}, returns="none",
                ghost={"resp_count": "ghost('resp_count') + 1", "resp_type": "t",
-                      "resp_payload": "packet if isbytes(packet) else packet.packet.getvalue()"}, raises={}, modifies=[])
+                      "resp_payload": "packet if isbytes(packet) else packet.packet.getvalue()",
+                      # the id a response carries is, by definition, its first uint32
+                      "resp_id": "unpack32((packet if isbytes(packet) else packet.packet.getvalue())[0:4])"},
+               raises={}, modifies=[])
     one = {"one_packet": "ghost('resp_count') == old(ghost('resp_count')) + 1",
            "type_as_given": "ghost('resp_type') == t",
            "carries_request_id_first": "ghost('resp_payload')[0:4] == pack32(request_number)"}
